@@ -562,6 +562,25 @@ class F:
         dfs(g.entry, [], frozenset(), {})
         return out
 
+    def decision_mismatches(self, spec, limit: int = 512):
+        """Compare the function with a decision table: `spec(d)` maps the outcomes of the atoms on a path (d: atom text ->
+        bool, locals expanded) to the text of the value that must be returned on that path, or None when the path says too
+        little to decide.  Returns [(literals, got, want)] for paths that disagree -- independent of how the conditions are
+        nested, ordered or spelled as statements / conditional expressions.  Raises ValueError on loops."""
+        bad = []
+        self.undecided_paths = 0
+        for lits, v, n_ in self.value_paths(limit):
+            d = dict(lits)
+            want = spec(d)
+            got = norm(v)
+            if want is None:
+                # the conditions on this path are spelled in a way the table does not know: no verdict for this path
+                self.undecided_paths += 1
+                continue
+            if got != want if isinstance(want, str) else got not in want:
+                bad.append((lits, got, want))
+        return bad
+
     def node_paths(self, limit: int = 512):
         """All acyclic entry -> exit/return paths of a loop-free function: (literals, statements on the path in order)."""
         g = self.g
